@@ -68,7 +68,7 @@ def _rewrite_demo(demo_src, wt):
     """demos hard-code the agent's worktree path; point them at the scratch tree"""
     txt = open(demo_src).read()
     import re
-    txt = re.sub(r"/tmp/seed[23456789]?_C\d+", wt, txt)
+    txt = re.sub(r"/tmp/seed\d*_C\d+", wt, txt)
     out = os.path.join(wt, "_demo_run.py")
     open(out, "w").write(txt)
     return out
